@@ -161,6 +161,12 @@ def netStep (st : NetState) (t : List String) : NetState × String :=
     | some i, some de, some seed =>
       runEv st (fun m => m.retx (if st.plain then 0 else st.snMod) (reachOf st) i de) seed
     | _, _, _ => (st, "bad-op")
+  | ["lsretxq", i, de] =>
+    -- retransmission timer while frames are held back (lag blocks): the LS request is put in the air, nothing is
+    -- delivered yet
+    match nat? i, nat? de with
+    | some i, some de => queueEv st (fun m => m.retx (if st.plain then 0 else st.snMod) (reachOf st) i de)
+    | _, _ => (st, "bad-op")
   | _ => (st, "bad-op")
 
 def netDomain : Domain := { σ := NetState, init := {}, step := netStep }
